@@ -133,6 +133,11 @@ def parse_trace(script_path, impl_path):
             if l.startswith(("I ", "K ")):
                 cur = []
                 digests.append(cur)
+            elif l.startswith("X ok") and digests:
+                # the digest printed after a successful export/import replaces the one of the commit before it
+                # (it is the state the next block starts from)
+                cur = []
+                digests[-1] = cur
             t = l.split(" ")
             if t[0] == "R":
                 results[t[1]] = (t[2], dict(x.split("=", 1) for x in t[3:] if "=" in x))
@@ -457,6 +462,8 @@ def o_c08(tr):
                 ks = sorted(h for (j, h) in d.recs[m] if j == i)
                 if r["num"] != len(ks):
                     yield {"oracle": "counter-num", "signature": m, "detail": "%d num %d store %d" % (i, r["num"], len(ks))}
+                if not ks and (r["lowest"] != 0 or r["num"] != 0):
+                    yield {"oracle": "counter-bounds", "signature": m + "/empty", "detail": "%d holds no record but reports num %d lowest %d" % (i, r["num"], r["lowest"])}
                 if ks and (r["lowest"] != ks[0] or r["last"] != ks[-1]):
                     yield {"oracle": "counter-bounds", "signature": m, "detail": "%d lowest %d last %d vs %s" % (i, r["lowest"], r["last"], ks[:3])}
                 if r["limit"] != "none":
@@ -621,6 +628,27 @@ def o_c11(tr):
                 continue
             if s["zero"] > s["last"] and s["deposit"][0] < s["rate"] * ((s["zero"] - s["last"]) // 10**9):
                 yield {"oracle": "solvency", "signature": "deposit<rate*(zero-last)", "detail": "%s deposit %d rate %d last %d zero %d" % (k, s["deposit"][0], s["rate"], s["last"], s["zero"])}
+
+
+def o_c11_zero(tr):
+    """the advertised deposit-zero time of a stream created in this block and not touched since is its funding time plus
+    floor(deposit / flow rate) seconds"""
+    for prev, b, d in states(tr):
+        if prev is None:
+            continue
+        for k, st in d.streams.items():
+            if k in prev.streams:
+                continue
+            r, sn = k
+            touching = [t for t in b["txs"] if r in names_in(t) and sn in names_in(t) and any(x.startswith("str.") for x in t["kinds"])]
+            if len(touching) != 1 or touching[0]["kinds"] != ["str.create"] or touching[0]["result"] != "ok":
+                continue
+            dep, rate = st["deposit"][0], st["rate"]
+            if rate <= 0:
+                continue
+            want = b["time"] + (dep // rate) * 10**9
+            if st["zero"] != want or st["last"] != b["time"]:
+                yield {"oracle": "deposit-zero-time", "signature": "create", "detail": "stream %s/%s: deposit %d rate %d funded at %d: zero time %d, want %d" % (r, sn, dep, rate, b["time"], st["zero"], want)}
 
 
 def o_c12(tr):
@@ -916,6 +944,24 @@ def o_c20(tr):
             yield {"oracle": "pages-partition", "signature": kind + "/incomplete-or-extra", "detail": "walk from QUERY %s lim=%s: got %s want %s" % (w["first"], lim, got[:12], want[:12])}
 
 
+def o_page_progress(tr):
+    """following next_key makes progress: a page requested with a key never answers that same key as the next one, and a
+    continuation page does not start with the item the page before started with"""
+    prevq = None
+    for q in tr.queries:
+        r = kvtoks(q["toks"]); a = kvtoks(q["args"])
+        if q["result"] != "ok" or "next" not in r:
+            prevq = None
+            continue
+        key = a.get("key", "-")
+        if key != "-" and r["next"] == key:
+            yield {"oracle": "paging-makes-progress", "signature": q["kind"] + "/same-next-key", "detail": "QUERY %s %s answers next=%s" % (q["n"], " ".join(q["args"]), r["next"])}
+        items = r.get("items", r.get("coins", "-"))
+        if prevq is not None and key != "-" and key == prevq[1] and prevq[0] == q["kind"] and items != "-" and items.split(",")[0] == prevq[2]:
+            yield {"oracle": "paging-makes-progress", "signature": q["kind"] + "/page-repeated", "detail": "QUERY %s %s starts with %s again" % (q["n"], " ".join(q["args"]), prevq[2])}
+        prevq = (q["kind"], r["next"], items.split(",")[0] if items != "-" else None)
+
+
 def o_c17(tr):
     """supply figures served by the enterprise queries = bank supply - locked eFUND for the enterprise denomination, unchanged otherwise"""
     by_gap = {}
@@ -1066,9 +1112,9 @@ def o_invariants(tr):
 
 
 ORACLES = {
-    "C02": [o_c02, o_invariants, o_c03], "C03": [o_c03], "C04": [o_c04, o_invariants], "C05": [o_c05, o_c05_granter, o_c05_amount], "C07": [o_c07], "C08": [o_c08],
-    "C09": [o_c09, o_owner_writes], "C10": [o_c10, o_c10_fee, o_invariants], "C11": [o_c11], "C12": [o_c12, o_c12_live], "C14": [o_c14], "C16": [o_c16, o_c03, o_c06_plain], "C18": [o_c18],
-    "C13": [o_c13, o_owner_writes], "C17": [o_c17], "C20": [o_c20], "C15": [o_c15, o_invariants], "C06": [o_c06], "C01": [],
+    "C02": [o_c02, o_invariants, o_c03], "C03": [o_c03], "C04": [o_c04, o_invariants], "C05": [o_c05, o_c05_granter, o_c05_amount], "C07": [o_c07, o_c08], "C08": [o_c08],
+    "C09": [o_c09, o_owner_writes], "C10": [o_c10, o_c10_fee, o_invariants], "C11": [o_c11, o_c11_zero], "C12": [o_c12, o_c12_live], "C14": [o_c14], "C16": [o_c16, o_c03, o_c06_plain, o_c08], "C18": [o_c18, o_c09, o_c15],
+    "C13": [o_c13, o_owner_writes], "C17": [o_c17, o_page_progress], "C20": [o_c20, o_page_progress], "C15": [o_c15, o_invariants], "C06": [o_c06], "C01": [],
 }
 
 
